@@ -235,6 +235,45 @@ def analyse(scn, obs):
     return out
 
 
+def index_shift(scn, obs, a, before=None):
+    """True when the indexes the persistent backend has accumulated for this
+    message (raw concatenation of what set_recipients_delivered was given)
+    do not denote the recipients the queue meant, because the queue computes
+    them against the *reduced* list that get() returned: known finding
+    'relative-index accumulation' (DESIGN.md section 10 #5).  Pure function of
+    the recorded history; `before` limits it to marks recorded before that
+    loop time."""
+    if scn['backend'] == 'dict' or a['acc'] is None:
+        return False
+    id = a['acc']['id']
+    orig = list(a['m']['rcpts'])
+    raw = []
+    meant = set()
+    for o in obs['store_ops']:
+        if o['op'] != 'set_recipients_delivered' or o['t1'] is None or \
+                not o['ok'] or hq._norm(o['id']) != id:
+            continue
+        if before is not None and o['t1'] > before:
+            continue
+        owner = None
+        for att in a['attempts']:
+            if att['t1'] is not None and att['t1'] <= o['t0']:
+                owner = att
+        if owner is None:
+            continue
+        raw += list(o['args'])
+        for r, t in (owner['truth'] or {}).items():
+            if t in ('ok', 'perm'):
+                meant.add(r)
+    lst = list(orig)
+    for i in sorted(raw, reverse=True):
+        if i < len(lst):
+            del lst[i]
+        else:
+            return True
+    return lst != [r for r in orig if r not in meant]
+
+
 _failed_for = re.compile(br'Delivery failed for:\r\n- (.*?)\r\n\r\n', re.S)
 _responded = re.compile(br'Destination host responded:\r\n(\d\d\d) (.*?)\r\n'
                         br'\r\n--', re.S)
